@@ -1989,6 +1989,96 @@ def Date.eq_timestamp (self : Int) (other : Int) : Bool :=
 def Date.eq_timestamp_safe (self : Int) (other : Int) : Prop :=
   Tr.Date.and_zero_time_safe self
 
+/-- `time.rs::PartialEq<IntervalDT> for Time::eq` (time.rs:230), body sha1 9f91ab262cdf -/
+def Time.eq_interval_dt (self : Int) (other : Int) : Bool :=
+  decide (self = other)
+
+/-- No arithmetic node of `time.rs::PartialEq<IntervalDT> for Time::eq` leaves its Rust integer type, no division by zero, no index out of range
+    (path-sensitive; calls contribute the callee's predicate). -/
+def Time.eq_interval_dt_safe (self : Int) (other : Int) : Prop :=
+  True
+
+/-- `time.rs::PartialOrd<IntervalDT> for Time::partial_cmp` (time.rs:237), body sha1 1bb081df4722 -/
+def Time.partial_cmp_interval_dt (self : Int) (other : Int) : Option Int :=
+  some (cmpInt self other)
+
+/-- No arithmetic node of `time.rs::PartialOrd<IntervalDT> for Time::partial_cmp` leaves its Rust integer type, no division by zero, no index out of range
+    (path-sensitive; calls contribute the callee's predicate). -/
+def Time.partial_cmp_interval_dt_safe (self : Int) (other : Int) : Prop :=
+  True
+
+/-- `interval.rs::PartialEq<Time> for IntervalDT::eq` (interval.rs:550), body sha1 9f91ab262cdf -/
+def IntervalDT.eq_time (self : Int) (other : Int) : Bool :=
+  decide (self = other)
+
+/-- No arithmetic node of `interval.rs::PartialEq<Time> for IntervalDT::eq` leaves its Rust integer type, no division by zero, no index out of range
+    (path-sensitive; calls contribute the callee's predicate). -/
+def IntervalDT.eq_time_safe (self : Int) (other : Int) : Prop :=
+  True
+
+/-- `interval.rs::PartialOrd<Time> for IntervalDT::partial_cmp` (interval.rs:557), body sha1 1bb081df4722 -/
+def IntervalDT.partial_cmp_time (self : Int) (other : Int) : Option Int :=
+  some (cmpInt self other)
+
+/-- No arithmetic node of `interval.rs::PartialOrd<Time> for IntervalDT::partial_cmp` leaves its Rust integer type, no division by zero, no index out of range
+    (path-sensitive; calls contribute the callee's predicate). -/
+def IntervalDT.partial_cmp_time_safe (self : Int) (other : Int) : Prop :=
+  True
+
+/-- `timestamp.rs::PartialEq<Date> for Timestamp::eq` (timestamp.rs:450), body sha1 0ce3e734b950 -/
+def Timestamp.eq_date (self : Int) (other : Int) : Bool :=
+  decide (self = Tr.Date.and_zero_time other)
+
+/-- No arithmetic node of `timestamp.rs::PartialEq<Date> for Timestamp::eq` leaves its Rust integer type, no division by zero, no index out of range
+    (path-sensitive; calls contribute the callee's predicate). -/
+def Timestamp.eq_date_safe (self : Int) (other : Int) : Prop :=
+  Tr.Date.and_zero_time_safe other
+
+/-- `timestamp.rs::PartialOrd<Date> for Timestamp::partial_cmp` (timestamp.rs:457), body sha1 5e3a9be59337 -/
+def Timestamp.partial_cmp_date (self : Int) (other : Int) : Option Int :=
+  some (cmpInt self (Tr.Date.and_zero_time other))
+
+/-- No arithmetic node of `timestamp.rs::PartialOrd<Date> for Timestamp::partial_cmp` leaves its Rust integer type, no division by zero, no index out of range
+    (path-sensitive; calls contribute the callee's predicate). -/
+def Timestamp.partial_cmp_date_safe (self : Int) (other : Int) : Prop :=
+  Tr.Date.and_zero_time_safe other
+
+/-- `oracle.rs::PartialEq<OracleDate> for Timestamp::eq` (oracle.rs:453), body sha1 651a63a43748 -/
+def Timestamp.eq_oracle_date (self : Int) (other : Int) : Bool :=
+  decide (self = other)
+
+/-- No arithmetic node of `oracle.rs::PartialEq<OracleDate> for Timestamp::eq` leaves its Rust integer type, no division by zero, no index out of range
+    (path-sensitive; calls contribute the callee's predicate). -/
+def Timestamp.eq_oracle_date_safe (self : Int) (other : Int) : Prop :=
+  True
+
+/-- `oracle.rs::PartialEq<Timestamp> for OracleDate::eq` (oracle.rs:467), body sha1 60eb141c4194 -/
+def OracleDate.eq_timestamp (self : Int) (other : Int) : Bool :=
+  decide (self = other)
+
+/-- No arithmetic node of `oracle.rs::PartialEq<Timestamp> for OracleDate::eq` leaves its Rust integer type, no division by zero, no index out of range
+    (path-sensitive; calls contribute the callee's predicate). -/
+def OracleDate.eq_timestamp_safe (self : Int) (other : Int) : Prop :=
+  True
+
+/-- `oracle.rs::PartialEq<OracleDate> for Date::eq` (oracle.rs:481), body sha1 864f3b63a69d -/
+def Date.eq_oracle_date (self : Int) (other : Int) : Bool :=
+  decide (Tr.Date.and_zero_time self = other)
+
+/-- No arithmetic node of `oracle.rs::PartialEq<OracleDate> for Date::eq` leaves its Rust integer type, no division by zero, no index out of range
+    (path-sensitive; calls contribute the callee's predicate). -/
+def Date.eq_oracle_date_safe (self : Int) (other : Int) : Prop :=
+  Tr.Date.and_zero_time_safe self
+
+/-- `oracle.rs::PartialEq<Date> for OracleDate::eq` (oracle.rs:495), body sha1 fa1a398a53c8 -/
+def OracleDate.eq_date (self : Int) (other : Int) : Bool :=
+  decide (self = Tr.Date.and_zero_time other)
+
+/-- No arithmetic node of `oracle.rs::PartialEq<Date> for OracleDate::eq` leaves its Rust integer type, no division by zero, no index out of range
+    (path-sensitive; calls contribute the callee's predicate). -/
+def OracleDate.eq_date_safe (self : Int) (other : Int) : Prop :=
+  Tr.Date.and_zero_time_safe other
+
 /-- `oracle.rs::OracleDate::new` (oracle.rs:29), body sha1 3879069e29cc -/
 def OracleDate.new (date : Int) (time : Int) : Int :=
   -- oracle.rs:30: let time = if time.usecs() % USECONDS_PER_SECOND != 0 {
